@@ -166,14 +166,17 @@ PROPS["C15"] = dict(
 
 PROPS["C12"] = dict(
     family="kde", specdir="kde",
-    technique="TLA+ model of a KDE object (sample, kernel, lazily filled bandwidth, reflecting boundaries) with exact integer Epanechnikov sums over the reflection image list; TLC checks mass/monotonicity laws and emits exact values and the image structure, replayed into stats.KDE for the Epanechnikov, Gaussian and delta kernels",
-    level_text="TLC enumerates 6 samples (thorough 11; weighted and unweighted, repeated values) x 5 bandwidths (thorough 9, 1/4..50) x 8 boundary configurations (thorough 13: none, lower only, upper only, both; touching the data to far away) and computes exact Epanechnikov PDF and CDF on the quarter lattice from below the lower to above the upper boundary, checking non-negativity, monotonicity and that the unclamped CDF formula is exactly 0 / 1 at the boundaries (total mass 1); the binder compares KDE.PDF/CDF for the Epanechnikov kernel with the exact rationals, for the Gaussian kernel with the same image structure evaluated with Erfc/Exp, for the delta kernel with the weighted ECDF, integrates the PDF over every lattice cell (Gauss-Legendre) against CDF differences, and checks Bounds, Scott/Silverman and the lazily filled Bandwidth",
+    technique="TLA+ model of a KDE object (sample, kernel, lazily filled bandwidth, reflecting boundaries) with exact integer Epanechnikov sums over the reflection image list; TLC checks mass/monotonicity laws and emits exact values and the image structure, replayed into stats.KDE for the Epanechnikov, Gaussian and delta kernels; KDETrace.tla validates recorded histories of one mutable KDE object (field assignments interleaved with PDF/CDF/Bounds calls, lazily filled bandwidth as a state change) with exact BigInt Epanechnikov sums on random samples of up to 40 values",
+    level_text="TLC enumerates 6 samples (thorough 11; weighted and unweighted, repeated values) x 5 bandwidths (thorough 9, 1/4..50) x 8 boundary configurations (thorough 13: none, lower only, upper only, both; touching the data to far away) and computes exact Epanechnikov PDF and CDF on the quarter lattice from below the lower to above the upper boundary, checking non-negativity, monotonicity and that the unclamped CDF formula is exactly 0 / 1 at the boundaries (total mass 1); the binder compares KDE.PDF/CDF for the Epanechnikov kernel with the exact rationals, for the Gaussian kernel with the same image structure evaluated with Erfc/Exp, for the delta kernel with the weighted ECDF, integrates the PDF over every lattice cell (Gauss-Legendre) against CDF differences, and checks Bounds, Scott/Silverman and the lazily filled Bandwidth. KDETrace.tla: 48 (thorough 1600) recorded histories on random samples of 1..40 scaled-integer values (ties, weights 1..9, offsets to 2^24, scales 2^-8..2^5); the driver assigns Kernel, Bandwidth (incl. 0 = Scott's rule, filled by the first query and then frozen) and boundaries between queries on the same object; every PDF/CDF reply is judged against the reflection structure with exact Epanechnikov sums (2^-30), the delta kernel's weighted ECDF, and for the Gaussian kernel the structure's image list summed over harness-evaluated kernel averages; Bounds must be finite, ordered, inside the boundaries and hold >= 98% of the (exact) mass; the sample slices must stay bit-identical",
     level_note="Trusted: TLC, binder comparison code, Go math (Exp, Erfc, Sqrt, Pow) for Gaussian kernel values and the bandwidth rules' irrational factors (the TLA+ side provides their exact rational ingredients). Weighted samples with zero Bandwidth are outside the statement (weighted StdDev is not implemented).",
     stages=[
         dict(name="gen", kind="gen", module="KDE.tla", cfg="KDE_gen.cfg",
              consts=dict(Samples={"quick": "SamplesQuick", "thorough": "SamplesThorough"},
                          Hs={"quick": "HsQuick", "thorough": "HsThorough"},
                          Bounds={"quick": "BoundsQuick", "thorough": "BoundsThorough"})),
+        dict(name="trace", kind="trace", module="KDETrace.tla", cfg="KDETrace.cfg",
+             record_args={"quick": ["-n", 48, "-max", 40], "thorough": ["-n", 1600, "-max", 40]}, shards={"quick": 8, "thorough": 16},
+             timeout={"quick": 1500, "thorough": 7000}),
     ],
 )
 
